@@ -57,7 +57,7 @@ def gen_links(rng, n, level_budget):
     return links
 
 
-def gen_signature(rng, nchains=None, with_cal=None, anchor=None, rfc=None, time=None, doc_alg=None, pub_time=None, long_chain=False, deprecated=None, first_corr=None, doc_data=None, doc_imprint=None):
+def gen_signature(rng, nchains=None, with_cal=None, anchor=None, rfc=None, time=None, doc_alg=None, pub_time=None, long_chain=False, deprecated=None, first_corr=None, doc_data=None, doc_imprint=None, calendar=None):
     """Honest signature (internally consistent by construction). Returns Sig with .doc (imprint) and .info dict."""
     if time is None:
         time = rng.choice([1136073600 + rng.randrange(0, 330000000), 1467331200 + rng.randrange(0, 300000000), 1467331199, 1467331200, rng.randrange(1, 2 ** 31)])
@@ -167,6 +167,8 @@ def gen_signature(rng, nchains=None, with_cal=None, anchor=None, rfc=None, time=
             links.append((left, rnd_imprint(rng, a)))
         at = time if (time != pub_time or rng.random() < 0.5) else None
         s.cal = CalChain(pub_time, at, cur, links)
+        if calendar is not None:
+            s.cal = calendar.chain(time, pub_time, cur, aggr_time_field=at is not None)
         calroot = s.cal.root()
         if anchor is None:
             anchor = rng.choice(['pub', 'auth', 'none', 'pub', 'auth'])
